@@ -72,8 +72,11 @@ func (secrets *Secrets) Get(key string) (*rspb.Release, error) {
 	}
 	// found the secret, decode the base64 data string
 	r, err := decodeRelease(string(obj.Data["release"]))
+	if err != nil {
+		return nil, errors.Wrapf(err, "get: failed to decode data %q", key)
+	}
 	r.Labels = filterSystemLabels(obj.Labels)
-	return r, errors.Wrapf(err, "get: failed to decode data %q", key)
+	return r, nil
 }
 
 // List fetches all releases and returns the list releases such
